@@ -537,4 +537,7 @@ def run(cx, tier='quick'):
     rep.not_decided += ['type equality beyond token-string equality']
     from .binders import check_binder_injectivity
     check_binder_injectivity(cx, rep, ['::into::'])
+    from .c13 import include_own_parsers as _iop
+    from ..facts import Facts as _Fp
+    _iop(cx, _Fp(cx), rep, ['::into::'])
     return rep
